@@ -51,8 +51,7 @@ func bindCollator(c *Ctx, r *Rec) *collRoles {
 	written := fieldsWrittenInMethods(c, cr.info, n)
 	st := structOf(n)
 	if st != nil {
-		for i := 0; i < st.NumFields(); i++ {
-			f := st.Field(i)
+		for _, f := range flatFields(n) {
 			if b, ok := f.Type().Underlying().(*types.Basic); ok && b.Kind() == types.Int {
 				if written[f] {
 					cr.depthF = f
@@ -947,10 +946,70 @@ func checkRankComposites(c *Ctx, r *Rec, cr *collRoles) {
 			bad := ""
 			for _, call := range calls {
 				if !mir.mirrorEq(call.Args[0], call.Args[1]) || mir.side(call.Args[0]) != 0 {
+					// a local that is assigned more than once (one variable used for both operands in
+					// turn: keys = first.MapKeys(); ...; keys = second.MapKeys()) cannot be followed
+					reused := false
+					seenLocals := map[types.Object]bool{}
+					var follow func(e ast.Expr, depth int)
+					follow = func(e ast.Expr, depth int) {
+						ast.Inspect(e, func(y ast.Node) bool {
+							id, ok := y.(*ast.Ident)
+							if !ok {
+								return true
+							}
+							v, isVar := info.Uses[id].(*types.Var)
+							if !isVar || v.IsField() || seenLocals[v] || depth > 4 {
+								return true
+							}
+							seenLocals[v] = true
+							ndefs := 0
+							var inits []ast.Expr
+							ast.Inspect(fd.Body, func(z ast.Node) bool {
+								switch d := z.(type) {
+								case *ast.AssignStmt:
+									for i2, l := range d.Lhs {
+										if identObj(info, l) == types.Object(v) {
+											ndefs++
+											if len(d.Lhs) == len(d.Rhs) {
+												inits = append(inits, d.Rhs[i2])
+											}
+										}
+									}
+								case *ast.ValueSpec:
+									for i2, nm := range d.Names {
+										if info.Defs[nm] == types.Object(v) {
+											ndefs++
+											if i2 < len(d.Values) {
+												inits = append(inits, d.Values[i2])
+											}
+										}
+									}
+								}
+								return true
+							})
+							if ndefs > 1 {
+								reused = true
+							}
+							for _, in := range inits {
+								follow(in, depth+1)
+							}
+							return true
+						})
+					}
+					follow(call.Args[0], 0)
+					follow(call.Args[1], 0)
+					if reused {
+						// which operand a part comes from could not be followed (a local that is used for
+						// both operands in turn, say): nothing is known about the pair
+						if bad == "" {
+							bad = fmt.Sprintf("skip: the operand that %s or %s is a part of could not be followed", exprStr(call.Args[0]), exprStr(call.Args[1]))
+						}
+						continue
+					}
 					bad = fmt.Sprintf("the recursive call %s(%s, %s) at %s does not rank mirror-image parts of first and second in that order", exprStr(call.Fun), exprStr(call.Args[0]), exprStr(call.Args[1]), c.pos(call.Pos()))
 				}
 			}
-			r.check(bad == "", "D8-operand-symmetry", construct, c.pos(fs.Pos()), fmt.Sprintf("%d recursive call(s), each on the same part of first and of second, in order", len(calls)), bad)
+			r.verdict("D8-operand-symmetry", construct, c.pos(fs.Pos()), fmt.Sprintf("%d recursive call(s), each on the same part of first and of second, in order", len(calls)), bad)
 			// D7 bounds: a loop bounded by one operand's size that also indexes the other needs an
 			// earlier exit for the case that the bounding operand is the longer one
 			typeLevel := false
